@@ -76,7 +76,9 @@ func (r *Report) Check(cond bool, rule, key, pos, desc, why string) bool {
 // (the number confirmed by hand on today's tree); fewer is a failure, never a pass.
 func (r *Report) Expect(rule string, min int) { r.minCounts[r.cur+"|"+rule] = min }
 
-func (r *Report) Note(format string, a ...interface{}) { r.Notes = append(r.Notes, fmt.Sprintf(format, a...)) }
+func (r *Report) Note(format string, a ...interface{}) {
+	r.Notes = append(r.Notes, fmt.Sprintf(format, a...))
+}
 
 type KnownFinding struct {
 	Property string `json:"property"`
